@@ -76,16 +76,15 @@ Funs       == CASE Kind = "genkill" -> GenKill
                 [] Kind = "mono"    -> { f \in [E0 -> E0] : FunMono(f) }
                 [] Kind = "all"     -> [E0 -> E0]
 
-\* a small family for the larger graphs: constants, identity, a swap of two incomparable
-\* elements (1 and 2 are incomparable in pow2 / flat2 / flat3), "anything but bottom goes to top",
-\* and for Kind = "all" two non-monotone members
+\* a small family for the larger graphs: two constants, identity, a swap of two incomparable
+\* elements (1 and 2 are incomparable in pow2 / flat2 / flat3: the non-distributive case, two
+\* different constants meeting at a join point), and for Kind = "all" two non-monotone members
 TopE == CHOOSE t \in E0 : \A x \in E0 : Leq(Lat, x, t)
 SmallFam ==
-  { [x \in E0 |-> 0], [x \in E0 |-> 1], [x \in E0 |-> x],
-    [x \in E0 |-> IF x = 1 THEN 2 ELSE IF x = 2 THEN 1 ELSE x],
-    [x \in E0 |-> IF x = 0 THEN 0 ELSE TopE],
-    [x \in E0 |-> IF x = 2 THEN TopE ELSE x] }
-  \cup (IF Kind = "all" THEN { [x \in E0 |-> IF x = 0 THEN 1 ELSE 0],
+  { [x \in E0 |-> 1], [x \in E0 |-> x],
+    [x \in E0 |-> IF x = 1 THEN 2 ELSE IF x = 2 THEN 1 ELSE x] }
+  \cup (IF Kind = "all" THEN { [x \in E0 |-> 0],
+                               [x \in E0 |-> IF x = 0 THEN 1 ELSE 0],
                                [x \in E0 |-> IF x = TopE THEN 1 ELSE x] } ELSE {})
 
 \* rows: the "no input" row first.  It is only ever used at the start location; elsewhere it is
@@ -130,17 +129,19 @@ Spec == Init /\ [][Next]_vars
 Run == ph = "run"
 
 \* 1. (k = 0 only: once per problem) for a monotone table the Kleene limit is a solution of the
-\*    equations, its domain is Reach, and it is below EVERY solution (brute force over all maps)
+\*    equations, its domain is Reach, and it is below EVERY solution (brute force over all maps,
+\*    for graphs of <= 2 locations and for the 1-bit lattice)
 AllMaps == [Locs(P) -> ElemsO(Lat)]
+BruteForce == P.n <= 2 \/ Lat = "pow1"      \* at most 27 maps
 LfpIsLeastSolution ==
   Run /\ k = 0 /\ mono =>
     /\ IsSolution(P, lfp)
     /\ lfp = F(P, lfp)
-    /\ \A m \in AllMaps : IsSolution(P, m) => \A l \in Locs(P) : LeqO(Lat, lfp[l], m[l])
+    /\ BruteForce => \A m \in AllMaps : IsSolution(P, m) => \A l \in Locs(P) : LeqO(Lat, lfp[l], m[l])
 \* 1b. the two readings of "solution" agree: IsSolution(m) iff m is a fixed point of the whole-map
 \*     function F whose domain is not larger than Reach
 SolutionIsFixedPointOfF ==
-  Run /\ k = 0 => \A m \in AllMaps : IsSolution(P, m) <=> (m = F(P, m) /\ Dom(m) \subseteq Reach(P))
+  Run /\ k = 0 /\ BruteForce => \A m \in AllMaps : IsSolution(P, m) <=> (m = F(P, m) /\ Dom(m) \subseteq Reach(P))
 
 \* 2. chaotic iteration stays below the least solution and never reports an ordering error
 BelowLfp   == Run /\ mono => /\ s.oc = "run"
